@@ -11,6 +11,7 @@ fn main() {
         "hdrparse" => hdrparse(args),
         "hdrmk" => hdrmk(args),
         "lazy" => lazy(args),
+        "lazyedit" => lazyedit(args),
         _ => format!("unknown-kind {kind}"),
     });
 }
@@ -163,6 +164,48 @@ fn lazy(args: &[&str]) -> String {
         None => format!("ok {tail}"),
         Some((step, kind)) => format!("err parse {kind} step={step} {tail}"),
     }
+}
+
+/// C16 with a caller edit: `lazyedit <moov payload hex> <ops> <i> <m>`: as `lazy`, then the chunk-offset table of the i-th trak is
+/// replaced by a fresh one with m entries 1..=m (`*stco = (1..=m).collect()`), which changes the payload length of the table and of
+/// every ancestor; finally put_buf / encoded_len of the moov value.
+fn lazyedit(args: &[&str]) -> String {
+    use mp4san::parse::{Co64Box, StblCoMut, StcoBox};
+    let payload = unhex(args[0]);
+    let mut buf = BytesMut::from(&payload[..]);
+    let mut moov = match MoovBox::parse(&mut buf) {
+        Ok(m) => m,
+        Err(e) => return format!("err parse {} step=parse", kind_of(e.get_ref())),
+    };
+    if args[1] != "-" {
+        for (step, op) in args[1].split(',').enumerate() {
+            let (i, k) = op.split_once('.').unwrap();
+            let (i, k): (usize, usize) = (i.parse().unwrap(), k.parse().unwrap());
+            if let Err(e) = lazy_op(&mut moov, i, k) {
+                return format!("err parse {} step={step}", kind_of(&e));
+            }
+        }
+    }
+    let (i, m): (usize, u32) = (args[2].parse().unwrap(), args[3].parse().unwrap());
+    let edit = |moov: &mut MoovBox| -> Result<(), ParseError> {
+        for (j, trak) in moov.traks().enumerate() {
+            let trak = trak.map_err(|e| e.into_inner())?;
+            if j == i {
+                match trak.co_mut().map_err(|e| e.into_inner())? {
+                    StblCoMut::Stco(stco) => *stco = (1..=m).collect::<StcoBox>(),
+                    StblCoMut::Co64(co64) => *co64 = (1..=u64::from(m)).collect::<Co64Box>(),
+                }
+                break;
+            }
+        }
+        Ok(())
+    };
+    if let Err(e) = edit(&mut moov) {
+        return format!("err parse {} step=edit", kind_of(&e));
+    }
+    let mut out = Vec::new();
+    moov.put_buf(&mut out);
+    format!("ok put={} elen={}", if out.is_empty() { "-".to_string() } else { hex(&out) }, moov.encoded_len())
 }
 
 fn lazy_op(moov: &mut MoovBox, i: usize, k: usize) -> Result<(), ParseError> {
